@@ -101,6 +101,7 @@ type vHistory struct {
 	K      string      `json:"k"`
 	ID     int         `json:"id"`
 	Own    string      `json:"own"`
+	OwnKey string      `json:"own_key"` // test key (generated from the seed), recorded so that a history can be replayed
 	GovCh  uint16      `json:"gov_chain"`
 	GovAd  string      `json:"gov_addr"`
 	Ops    []vOp       `json:"ops"`
@@ -160,7 +161,7 @@ func vNewDriver(t *testing.T, root context.Context, own *ecdsa.PrivateKey, govCh
 		pubCount: map[string]int{}, sawLocal: map[string]bool{}, bodyOf: map[string]string{}}
 	dr.p = NewProcessor(root, d, nil, nil, dr.sendC, dr.obsvC, dr.reqC, nil, nil, &ecdsasigner.ECDSAPrivateKey{Value: own},
 		common.NewGuardianSetState(nil), reporter.EventListener(zap.NewNop()), nil, govChain, govAddr)
-	dr.h = &vHistory{K: "hist", ID: id, Own: hex.EncodeToString(crypto.PubkeyToAddress(own.PublicKey).Bytes()), GovCh: uint16(govChain),
+	dr.h = &vHistory{K: "hist", ID: id, Own: hex.EncodeToString(crypto.PubkeyToAddress(own.PublicKey).Bytes()), OwnKey: hex.EncodeToString(crypto.FromECDSA(own)), GovCh: uint16(govChain),
 		GovAd: hex.EncodeToString(govAddr[:])}
 	return dr
 }
